@@ -4,6 +4,8 @@
  * unsynchronised access to shared memory inside the library is reported whatever the schedule.
  *
  * usage: threads <nthreads> <rounds> <seed> < addresses(hex, one per line)
+ * THREADS_HAMMER=n: every thread validates the whole (small) address list n times in one mode (5321 and 6531 alternating by thread), with TLD
+ *   checking on, comparing each outcome with the sequential one at once: for state hidden where a race detector does not look (inside libc).
  * THREADS_COLD=1: no library call is made before the threads start (they are released together by a barrier and
  *   their outcomes are compared with a sequential pass made afterwards), so that first-use initialisation inside
  *   the library — a lazily built table, a cached pointer — happens concurrently.
@@ -67,6 +69,23 @@ static void report (long t, int cfg, int i, const outcome_t *got)
     }
     mismatches++;
     pthread_mutex_unlock (&mu);
+}
+
+static long hammer_n;
+static void *hammer_worker (void *arg)
+{
+    long t = (long) arg; int cfg = (t % 2) ? 3 : 7;        /* mode 5321 / 6531, tld_check on */
+    eav_t e; eav_init (&e); e.rfc = (EAV_RFC) (cfg / 2); e.tld_check = cfg % 2;
+    if (eav_setup (&e) != 0) abort ();
+    outcome_t o;
+    for (long r = 0; r < hammer_n; r++)
+        for (int i = 0; i < na; i++) {
+            memset (&o, 0, sizeof o);
+            one (&e, i, &o);
+            if (memcmp (&o, &ref[cfg * na + i], sizeof o) != 0) report (t, cfg, i, &o);
+        }
+    eav_free (&e);
+    return NULL;
 }
 
 static void *cold_worker (void *arg)
@@ -136,6 +155,13 @@ int main (int argc, char **argv)
         return mismatches ? 1 : 0;
     }
     for (int c = 0; c < 8; c++) run_config (c, ref + c * na, &rs, 0);      /* the sequential outcomes */
+    if (getenv ("THREADS_HAMMER")) {
+        hammer_n = atol (getenv ("THREADS_HAMMER"));
+        for (long t = 0; t < nthreads; t++) pthread_create (&th[t], NULL, hammer_worker, (void *) t);
+        for (long t = 0; t < nthreads; t++) pthread_join (th[t], NULL);
+        printf ("hammer threads=%d iterations=%ld addresses=%d validations=%ld mismatches=%ld\n", nthreads, hammer_n, na, (long) nthreads * hammer_n * na, mismatches);
+        return mismatches ? 1 : 0;
+    }
     for (long t = 0; t < nthreads; t++) pthread_create (&th[t], NULL, worker, (void *) t);
     for (long t = 0; t < nthreads; t++) pthread_join (th[t], NULL);
     printf ("threads=%d rounds=%d addresses=%d validations=%ld mismatches=%ld\n", nthreads, rounds, na, (long) nthreads * rounds * 8 * na, mismatches);
